@@ -8,6 +8,7 @@ mod c06;
 mod c07;
 mod c11;
 mod c12;
+mod c14;
 mod codecref;
 mod ops;
 mod ops2;
@@ -87,6 +88,7 @@ fn oracle(prop: &str, op: &[&str], out: &str) -> Verdict {
         "C07" => c07::oracle(op, out),
         "C06" => c06::oracle(op, out),
         "C11" => c11::oracle(op, out),
+        "C14" => c14::oracle(op, out),
         _ => Verdict::NotApplicable,
     }
 }
@@ -97,6 +99,7 @@ fn generate(prop: &str, tier: &str, rng: &mut util::Prng) -> Vec<Case> {
         "C07" => c07::generate(tier, rng),
         "C06" => c06::generate(tier, rng),
         "C11" => c11::generate(tier, rng),
+        "C14" => c14::generate(tier, rng),
         _ => {
             eprintln!("unknown property {prop}");
             std::process::exit(2);
